@@ -19,7 +19,10 @@ def build(src_root='/repo'):
     src_pkg = os.path.join(src_root, 'falcon')
     if not os.path.isdir(src_pkg):
         raise RuntimeError('no falcon package under %s' % src_root)
+    _sweep_stale()
     dest = tempfile.mkdtemp(prefix='falcon-mirror-')
+    with open(os.path.join(dest, '.owner'), 'w') as f:
+        f.write(str(os.getpid()))
     h = hashlib.sha256()
     n = 0
     for dirpath, dirnames, filenames in os.walk(src_pkg):
@@ -39,6 +42,32 @@ def build(src_root='/repo'):
     if n < 50:
         raise RuntimeError('mirror too small: %d files' % n)
     return dest, h.hexdigest()
+
+
+def _sweep_stale():
+    """Remove mirrors left behind by checks that were killed (their owner pid is gone)."""
+    base = tempfile.gettempdir()
+    try:
+        names = os.listdir(base)
+    except OSError:
+        return
+    for n in names:
+        if not n.startswith('falcon-mirror-'):
+            continue
+        d = os.path.join(base, n)
+        try:
+            with open(os.path.join(d, '.owner')) as f:
+                pid = int(f.read().strip() or 0)
+        except (OSError, ValueError):
+            continue
+        if pid <= 0:
+            continue
+        try:
+            os.kill(pid, 0)
+        except ProcessLookupError:
+            shutil.rmtree(d, ignore_errors=True)
+        except OSError:
+            pass
 
 
 def activate(src_root='/repo'):
